@@ -27,26 +27,27 @@ def core(trace):
 
 
 def ref(trace):
-    """View for TraceRef (C05) / TraceFxp (C14): operand and result values of every call."""
+    """View for TraceRef (C05) / TraceFxp (C14): operand and result values of every call.
+    gfalse says whether the call sits inside a region whose condition is 0 -- derived from the program STRUCTURE (the
+    enter/leave markers and the logged condition values), not from the guard the code reports, so that a guard leaking
+    out of a region does not hide the calls that follow it."""
     evs = []
     mode = trace.get("meta", {}).get("mode", "plain")
     base = {"plain": 0, "ign": 0, "g1": 1, "g0": 1, "g1ign": 1, "g0ign": 1, "g11": 2, "g10": 2, "g01": 2}.get(mode, 0)
+    stack = []
     for e in trace["events"]:
+        if e["op"] in ("guarded_enter", "ite_enter"):
+            c = e["args"][0][0]["v"] if e["args"] and e["args"][0] else 1
+            stack.append(c)
+            continue
+        if e["op"] in ("guarded", "ite"):
+            if stack:
+                stack.pop()
         if e["op"] in ("new", "end") or e["op"].endswith("_enter"):
             continue
-        g = e["g"]
         evs.append({"seq": e["seq"], "op": e["op"], "name": e["name"], "out": e["out"], "exc": e["exc"], "depth": e["depth"],
                     "args": [[{"k": x["k"], "v": x["v"], "w": x["w"], "d": x["d"]} for x in a] for a in e["args"]],
                     "res": [{"k": x["k"], "v": x["v"], "w": x["w"], "d": x["d"], "m": x["m"]} for x in e["res"]],
-                    "gfalse": bool(g["has"] and g["v"] == 0)})
+                    "gfalse": bool(e["op"] not in ("guarded", "ite") and (any(c == 0 for c in stack) or (e["op"] == "ite" and False)))})
     return {"id": trace["id"], "P": trace["cfg"]["P"], "bitlength": trace["cfg"]["bitlength"], "resolution": trace["cfg"].get("resolution", 0),
             "ign": trace["ign"], "basedepth": base, "events": evs}
-
-
-def shape(trace):
-    """View for TraceShape (C06): kinds/order of new variables, canonical constraints, result wire expressions."""
-    evs = []
-    for e in trace["events"]:
-        reslc = [[x["k"], x["lc"]] for x in e["res"]] + [[x["k"], x["lc"]] for c in e["chg"] for x in c["now"]]
-        evs.append({"op": e["op"], "name": e["name"], "out": e["out"], "order": e["order"], "ncons": e["ncons"], "reslc": reslc})
-    return {"id": trace["id"], "events": evs}
